@@ -1,5 +1,6 @@
 """C09 — speaker convergence / history independence (Model/Speaker.v)."""
 import json, os
+import vlib
 
 CLOSURE = ["Model/BgpAds.v", "Model/Speaker.v", "Proofs/BgpAdsP.v", "Proofs/SpeakerP.v", "Proofs/SpeakerRefuted.v"]
 OVERLAY = {"internal/layer2/zz_verif_spk.go": os.path.join(os.path.dirname(os.path.dirname(os.path.abspath(__file__))),
@@ -37,10 +38,11 @@ def run(ctx):
                                    "on history %d (%s): %s" % (m, byid.get(m, {}).get("kind"), json.dumps(byid.get(m, {}).get("in"))[:900]))
     st = state["stats"]
     if cases:
-        for k in ("ev_svc", "ev_del", "ev_cfg_accepted", "ev_cfg_orphaning", "ev_node_resync", "ev_node_plain", "ev_spk",
-                  "fresh_announces_l2", "fresh_announces_bgp", "oracle_gone_checks", "f9_hits", "first_node_event_hits"):
+        # only counters that do not depend on the behaviour of the code under test
+        for k in ("ev_svc", "ev_del", "ev_cfg", "ev_cfg_orphaning", "ev_node", "ev_node_flag_change", "ev_node_first_with_services_present",
+                  "ev_spk", "fresh_announces_l2", "fresh_announces_bgp", "oracle_gone_checks"):
             if st.get(k, 0) == 0:
-                raise Exception("generator degenerate: counter %r is zero: %r" % (k, st))
+                raise vlib.Broken("generator degenerate: counter %r is zero: %r" % (k, st))
 
     def search():
         for k in range(4):
